@@ -782,6 +782,37 @@ def observations05(chk, binary):
                     chk.notes.append('OBSERVATION start-range (proposed key %s): %s' % (key, msg))
     finally:
         shutil.rmtree(a.root, ignore_errors=True)
+    # second behaviour (two-fix histories): a file declared unrecoverable is renamed <name>.unrecoverable with a hole where a block
+    # without recorded hash (CHG, stripe not reached by the last sync) could not be rebuilt; the NEXT fix renames it back
+    # (handle_create) and takes that block as correct: exit 0, summary:exit:ok, and check is quiet too
+    a = Array(binary, nd=2, np_=2)
+    try:
+        a.write('d1', 'A', bytes([1]) * 1024, mtime_ns=1700000000 * 10**9)
+        a.write('d1', 'B', bytes([2]) * 1024, mtime_ns=1700000000 * 10**9)
+        a.write('d2', 'C', bytes([3]) * 3072, mtime_ns=1700000000 * 10**9)
+        NEW = bytes([9]) * 1024 + bytes([8]) * 1024
+        if a.run('sync').rc == 0:
+            a.write('d1', 'A', NEW, mtime_ns=1700000100 * 10**9)
+            if a.run('sync', '-S', '1').rc == 0:
+                os.unlink(a.path('d1', 'A'))
+                os.unlink(a.parity_files[1][0])
+                r1 = a.run('fix')
+                r2 = a.run('fix')
+                p = a.path('d1', 'A')
+                data = open(p, 'rb').read() if os.path.isfile(p) else None
+                out['second_fix_after_unrecoverable'] = {'fix1_rc': r1.rc, 'fix2_rc': r2.rc, 'file_present': data is not None, 'bytes_are_recorded': data == NEW}
+                if data is not None and data != NEW and r2.rc == 0:
+                    msg = ('d1/A rewritten from 1 to 2 blocks, `sync -S 1` (block 0 stays CHG), A and the 2-parity file lost: fix exits %d and leaves A.unrecoverable '
+                           '(block 1 rebuilt, block 0 a hole); a second `fix` renames it back to A, takes block 0 as correct, exits 0 with summary:exit:%s' % (r1.rc, r2.summary().get('exit')))
+                    exact = len(data) == len(NEW) and data[:1024] == bytes(1024) and data[1024:] == NEW[1024:]
+                    if exact and any(k.get('property') == 'C05' and k.get('key') == KEY_U for k in chk.kf):
+                        chk.violation('obs_taken_back', msg, {'recipe': 'see message'}, finding_key=KEY_U)
+                    elif exact:
+                        chk.notes.append('OBSERVATION unrecoverable-taken-back (proposed key %s): %s' % (KEY_U, msg))
+                    else:
+                        chk.violation('obs_taken_back', 'after two fixes d1/A has unexpected bytes: ' + msg, {'recipe': 'see message'})
+    finally:
+        shutil.rmtree(a.root, ignore_errors=True)
     return out
 
 
